@@ -59,6 +59,11 @@ pub fn dispatch(args: &[String]) -> i32 {
     match args[0].as_str() {
         "hist" => scen_hist(&ctx),
         "replay" => scen_replay(&ctx),
+        "prop-hist" => scen_prop_hist(&ctx),
+        "reopen" => scen_reopen(&ctx),
+        "sync" => scen_sync(&ctx),
+        "iter" => scen_iter(&ctx),
+        "child" => crate::exec::child_main(Path::new(ctx.args.get("dir").map(|s| s.as_str()).unwrap_or("."))),
         other => {
             eprintln!("unknown scenario {}", other);
             2
@@ -298,4 +303,369 @@ fn scen_replay(ctx: &Ctx) -> i32 {
         println!("DIFF op#{} [{}] {}\n  observed: {}\n  expected: {}", d.idx, d.facet, d.op, d.got, d.want);
     }
     if out.diffs.is_empty() { 0 } else { 1 }
+}
+
+// =====================================================================================
+// property scenarios
+// =====================================================================================
+
+pub fn sizes(ctx: &Ctx, quick: usize, thorough: usize) -> usize {
+    let k: usize = ctx.args.get("scale").and_then(|s| s.parse().ok()).unwrap_or(100);
+    (if ctx.tier_thorough { thorough } else { quick }) * k / 100
+}
+
+fn finish(ctx: &Ctx, name: &str, b: &Batch, extra: Vec<(&str, String)>) -> i32 {
+    println!("{}", batch_json(ctx, name, b, extra));
+    if b.failures.is_empty() { 0 } else { 1 }
+}
+
+/// C01 / C14 / C17 / C05 / C06 / C08: random histories with different emphasis
+pub fn scen_prop_hist(ctx: &Ctx) -> i32 {
+    let prop = ctx.prop.as_str();
+    let count = sizes(ctx, 96, 1200);
+    let mut rng = Rng::new(ctx.seed ^ fnv(prop));
+    let mut seqs = Vec::new();
+    for i in 0..count {
+        let mut r = rng.fork(i as u64);
+        let kt = *r.pick(&Kt::ALL);
+        let n = *r.pick(&[1u64, 1, 2, 4, 8, 16, 64, 128, 256, 1024]);
+        let mut p = Profile::basic(kt, n, if ctx.tier_thorough { 400 } else { 160 });
+        p.val_mode = *r.pick(&[1u8, 1, 2, 2, 3]);
+        p.key_mode = *r.pick(&[0u8, 0, 1, 2]);
+        p.pool = r.range(2, 30) as usize;
+        match prop {
+            "C14" => {
+                p.w = [20, 10, 8, 3, 2, 1, 2, 0, 0, 0, 0, 30, 0, 1];
+            }
+            "C17" => {
+                p.w = [40, 5, 18, 0, 1, 0, 1, 12, 0, 0, 0, 2, 0, 0];
+                p.val_mode = *r.pick(&[1u8, 2, 2, 3]);
+            }
+            "C06" => {
+                p.w = [40, 3, 30, 0, 1, 0, 0, 1, 0, 0, 0, 3, 0, 0];
+                p.val_mode = *r.pick(&[1u8, 2, 2, 2, 3]);
+                p.pool = r.range(2, 12) as usize;
+            }
+            "C08" => {
+                // all keys collide: one bucket; 11-byte keys (key slot exactly full); files pass 16 KiB
+                p.params = Params::buckets(*r.pick(&[1u64, 1, 1, 2]));
+                p.kt = *r.pick(&[Kt::Bytes, Kt::Str]);
+                p.key_mode = 1;
+                p.val_mode = 2;
+                p.pool = r.range(3, 40) as usize;
+                p.n_ops = if ctx.tier_thorough { 600 } else { 260 };
+                p.w = [55, 8, 22, 2, 2, 0, 1, 0, 0, 0, 0, 0, 0, 0];
+            }
+            _ => {}
+        }
+        seqs.push(gen_history(&mut r, &p));
+    }
+    if prop == "C01" {
+        // one long history (no per-op byte comparison)
+        let mut r = rng.fork(999_983);
+        let mut p = Profile::basic(Kt::Bytes, 64, if ctx.tier_thorough { 100_000 } else { 12_000 });
+        p.val_mode = 2;
+        p.pool = 60;
+        seqs.push(gen_history(&mut r, &p));
+    }
+    let (facets, cmp_every, check_inv, decoder): (Vec<&str>, Option<u8>, bool, bool) = match prop {
+        "C01" | "C14" => (vec!["api", "oracle", "open"], None, false, false),
+        "C05" => (vec!["decoder", "inv", "bytes", "open"], Some(1), true, true),
+        "C06" => (vec!["decoder", "inv", "bytes"], Some(1), true, true),
+        "C08" => (vec!["api", "oracle", "inv", "bytes", "decoder"], Some(1), true, true),
+        "C17" => (vec!["api", "oracle", "decoder"], None, false, true),
+        _ => (vec!["api", "oracle", "open", "bytes", "inv", "decoder"], Some(1), true, true),
+    };
+    let long_from = 5000;
+    let b = run_batch(
+        ctx,
+        seqs,
+        move |s| RunOpts {
+            cmp_every: if s.ops.len() > long_from { None } else { cmp_every },
+            check_inv: check_inv && s.ops.len() <= long_from,
+            decoder,
+            cmp_end: prop_uses_bytes(&facets),
+            ..Default::default()
+        },
+        &match prop {
+            "C01" | "C14" => vec!["api", "oracle", "open"],
+            "C05" => vec!["decoder", "inv", "bytes", "open"],
+            "C06" => vec!["decoder", "inv", "bytes"],
+            "C08" => vec!["api", "oracle", "inv", "bytes", "decoder"],
+            "C17" => vec!["api", "oracle", "decoder"],
+            _ => vec!["api", "oracle", "open", "bytes", "inv", "decoder"],
+        },
+        prop,
+    );
+    let mut b = b;
+    if prop == "C06" {
+        cyclic_bound(ctx, &mut b);
+    }
+    finish(ctx, "hist", &b, vec![])
+}
+
+fn prop_uses_bytes(f: &[&str]) -> bool {
+    f.contains(&"bytes") || f.contains(&"decoder")
+}
+
+/// C06: cyclic workloads with a bounded live set must not grow the files
+fn cyclic_bound(ctx: &Ctx, b: &mut Batch) {
+    let cycles = if ctx.tier_thorough { 3000 } else { 120 };
+    let mut rng = Rng::new(ctx.seed ^ 0xC06C06);
+    for variant in 0..4u64 {
+        let dir = fresh_dir(&ctx.scratch, &format!("cyc{}", variant));
+        let mut imp = crate::imp::Impl::new(&dir);
+        let kt = Kt::Bytes;
+        let _ = imp.open(0, kt, &Params::buckets(16));
+        let lens: Vec<usize> = match variant {
+            0 => vec![5, 20, 100],
+            1 => vec![1100, 1500, 5000, 3000],
+            2 => vec![14, 15, 1019, 1020, 1200],
+            _ => vec![0, 300, 2000, 70_000],
+        };
+        let mut sizes_at: Vec<(u64, u64)> = Vec::new();
+        let mut ops_text = format!("open {} {}\n", kt.name(), Params::buckets(16).tok());
+        for c in 0..cycles {
+            let mut keys = Vec::new();
+            for j in 0..6u8 {
+                let k = vec![b'k', j, (c % 3) as u8];
+                let l = *rng.pick(&lens);
+                let op = Op::Put(B::Hex(k.clone()), B::Pat(l, c as u64 % 50));
+                ops_text.push_str(&op.text());
+                ops_text.push('\n');
+                imp.exec(&op);
+                keys.push(k);
+            }
+            for k in keys {
+                let op = Op::Del(B::Hex(k));
+                ops_text.push_str(&op.text());
+                ops_text.push('\n');
+                imp.exec(&op);
+            }
+            b.ops += 12;
+            if c % 20 == 19 || c + 1 == cycles {
+                imp.exec(&Op::Flush);
+                let kl = std::fs::metadata(dir.join("m0.key")).map(|m| m.len()).unwrap_or(0);
+                let vl = std::fs::metadata(dir.join("m0.val")).map(|m| m.len()).unwrap_or(0);
+                sizes_at.push((kl, vl));
+            }
+        }
+        imp.close_all();
+        let dec = crate::decoder::decode(&dir, "m0", &sig_of(kt));
+        // bound implied by the statement: slots per size <= peak simultaneously used slots of that size (+1 transient).
+        // The live set never exceeds 6 entries, so no size may have more than 6 + 1 slots … the shared large
+        // list is first-fit, so count all large slots together: <= 6 + 1 as well.
+        let mut per: std::collections::BTreeMap<u64, u64> = Default::default();
+        for s in dec.val_slots.iter() {
+            *per.entry(if s.1 >= 1024 { 1024 } else { s.1 }).or_default() += 1;
+        }
+        let worst = per.values().cloned().max().unwrap_or(0);
+        let first = sizes_at.get(1).cloned().unwrap_or((0, 0));
+        let last = sizes_at.last().cloned().unwrap_or((0, 0));
+        b.sequences += 1;
+        if !dec.errors.is_empty() || worst > 7 * lens.len() as u64 || last.1 > first.1 * 3 + 200_000 {
+            let path = ctx.replays.join(format!("{}-decoder-cyclic{}.txt", ctx.prop, variant));
+            let _ = std::fs::write(&path, format!("# property={} facet=decoder cyclic workload, live set <= 6 entries\n# file sizes (key,val) every 20 cycles: {:?}\n# slots per class: {:?} errors: {:?}\n{}", ctx.prop, sizes_at, per, dec.errors.first(), ops_text));
+            b.failures.push(Failure { facet: "decoder".into(), replay: path.to_string_lossy().to_string(), detail: format!("cyclic workload: value file {} -> {} bytes, worst class has {} slots, errors {:?}", first.1, last.1, worst, dec.errors.first()) });
+        }
+        let _ = std::fs::remove_dir_all(&dir);
+    }
+}
+
+/// C02: close/reopen interleaved, in-process and in fresh processes, same and different parameters
+pub fn scen_reopen(ctx: &Ctx) -> i32 {
+    let count = sizes(ctx, 60, 600);
+    let mut rng = Rng::new(ctx.seed ^ fnv("reopen"));
+    let mut seqs = Vec::new();
+    for i in 0..count {
+        let mut r = rng.fork(i as u64);
+        let kt = *r.pick(&Kt::ALL);
+        let n = *r.pick(&[1u64, 2, 8, 16, 64, 256]);
+        let mut p = Profile::basic(kt, n, 120);
+        p.w = [40, 12, 12, 3, 3, 1, 4, 0, 1, 8, 0, 2, 0, 1];
+        p.val_mode = *r.pick(&[1u8, 2, 2, 3]);
+        p.pool = r.range(3, 25) as usize;
+        let mut s = gen_history(&mut r, &p);
+        // after each reopen look at everything: len, full iteration, then lookups
+        let mut ops = Vec::new();
+        for o in s.ops.drain(..) {
+            let is_re = matches!(o, Op::Reopen(_));
+            ops.push(o);
+            if is_re {
+                ops.push(Op::Len);
+                ops.push(Op::Iter(0));
+            }
+        }
+        s.ops = ops;
+        seqs.push(s);
+    }
+    let b = run_batch(
+        ctx,
+        seqs,
+        |s| RunOpts { child: fnv(&s.text()) % 2 == 0, cmp_end: true, ..Default::default() },
+        &["api", "oracle", "open", "bytes"],
+        "reopen",
+    );
+    finish(ctx, "reopen", &b, vec![])
+}
+
+/// C03: every flush/sync call site is a crash point
+pub fn scen_sync(ctx: &Ctx) -> i32 {
+    let count = sizes(ctx, 48, 500);
+    let mut rng = Rng::new(ctx.seed ^ fnv("sync"));
+    let mut seqs = Vec::new();
+    // a map that was only created: flush / sync must leave a valid empty map
+    for (i, op) in [Op::Flush, Op::SyncAll, Op::SyncData, Op::DbSyncAll, Op::DbSyncData].into_iter().enumerate() {
+        seqs.push(Seq { kt: Kt::ALL[i % 5], params: Params::buckets(8), ops: vec![op] });
+    }
+    for i in 0..count {
+        let mut r = rng.fork(i as u64);
+        let kt = *r.pick(&Kt::ALL);
+        let n = *r.pick(&[1u64, 8, 16, 64, 256]);
+        let mut p = Profile::basic(kt, n, 70);
+        p.w = [45, 5, 14, 0, 1, 0, 1, 0, 14, 1, 0, 3, 0, 0];
+        p.val_mode = *r.pick(&[1u8, 2, 2, 3]);
+        p.pool = r.range(3, 20) as usize;
+        let mut s = gen_history(&mut r, &p);
+        if r.chance(1, 3) {
+            // a second map in the same directory: database-level sync must cover both
+            let kt1 = *r.pick(&Kt::ALL);
+            s.ops.insert(0, Op::Map(1, kt1, Params::buckets(4)));
+            s.ops.insert(1, Op::Put(gen_key(&mut r, kt1, 0), gen_val(&mut r, 1)));
+            s.ops.insert(2, Op::Map(0, kt, p.params));
+            let mid = s.ops.len() / 2;
+            s.ops.insert(mid, Op::Map(1, kt1, Params::buckets(4)));
+            // the operations that follow address map 1: keep only those whose keys suit its key type
+            if kt1 != kt {
+                s.ops.truncate(mid + 1);
+                for _ in 0..10 {
+                    s.ops.push(Op::Put(gen_key(&mut r, kt1, 0), gen_val(&mut r, 1)));
+                }
+                s.ops.push(Op::DbSyncAll);
+                s.ops.push(Op::Map(0, kt, p.params));
+                s.ops.push(Op::Put(gen_key(&mut r, kt, 0), gen_val(&mut r, 1)));
+                s.ops.push(Op::DbSyncData);
+            }
+        }
+        seqs.push(s);
+    }
+    // fix up: the second map must keep its key type
+    for s in seqs.iter_mut() {
+        let mut kt1 = None;
+        for o in s.ops.iter_mut() {
+            if let Op::Map(1, kt, _) = o {
+                if let Some(k) = kt1 {
+                    *kt = k;
+                } else {
+                    kt1 = Some(*kt);
+                }
+            }
+        }
+    }
+    let thorough = ctx.tier_thorough;
+    let b = run_batch(
+        ctx,
+        seqs,
+        move |s| {
+            let h = fnv(&s.text());
+            let child = h % 3 == 0 || (thorough && h % 2 == 0);
+            RunOpts { sync_check: true, child, kill_after_sync: child && h % 2 == 0, cmp_end: false, ..Default::default() }
+        },
+        &["trace", "sync-bytes", "sync-oracle", "api", "oracle"],
+        "sync",
+    );
+    finish(ctx, "sync", &b, vec![])
+}
+
+/// keys whose documented hash falls into bucket `t` of `n`
+fn keys_for_bucket(n: u64, t: u64, want: usize, salt: u64) -> Vec<Vec<u8>> {
+    let mut out = Vec::new();
+    let mut c: u64 = salt * 1_000_003;
+    while out.len() < want && c < salt * 1_000_003 + 3_000_000 {
+        let k = format!("k{}", c).into_bytes();
+        if crate::decoder::hash(&k) % n == t {
+            out.push(k);
+        }
+        c += 1;
+    }
+    out
+}
+
+/// C04: iteration under every table size and directed occupancy
+pub fn scen_iter(ctx: &Ctx) -> i32 {
+    let mut rng = Rng::new(ctx.seed ^ fnv("iter"));
+    let mut seqs = Vec::new();
+    let mut ns: Vec<u64> = vec![1, 2, 3, 4, 7, 8, 9, 16, 32, 63, 64, 65, 128, 200, 256, 512, 1024, 4096];
+    if ctx.tier_thorough {
+        ns.extend([5, 6, 12, 100, 2048, 8192, 16384, 65536]);
+    } else {
+        ns.push(65536);
+    }
+    for (i, &nreq) in ns.iter().enumerate() {
+        let n = nreq.next_power_of_two();
+        let variants = if ctx.tier_thorough { 6 } else { 3 };
+        for v in 0..variants {
+            let mut r = rng.fork((i * 16 + v) as u64);
+            let mut targets: Vec<u64> = vec![0, 7, 8, 63, 64, n.saturating_sub(9), n.saturating_sub(8), n - 1, n / 2, 71, 72, 119, 120]
+                .into_iter()
+                .filter(|t| *t < n)
+                .collect();
+            targets.sort();
+            targets.dedup();
+            // choose a subset of target buckets, 1-2 keys each
+            let mut keys: Vec<Vec<u8>> = Vec::new();
+            for t in &targets {
+                if v == 0 || r.chance(1, 2) {
+                    let cnt = r.range(1, 2) as usize;
+                    keys.extend(keys_for_bucket(n, *t, cnt, (i * 16 + v + 1) as u64));
+                }
+            }
+            if v == 2 {
+                for j in 0..(n.min(300)) {
+                    keys.push(format!("r{}-{}", i, j).into_bytes());
+                }
+            }
+            let kt = *r.pick(&[Kt::Bytes, Kt::Str]);
+            let mut ops = vec![Op::Iter(0), Op::Iter(2)];
+            for k in &keys {
+                ops.push(Op::Put(B::Hex(k.clone()), gen_val(&mut r, 1)));
+            }
+            for f in 0..6 {
+                ops.push(Op::Iter(f));
+            }
+            // delete about half, iterate, delete the rest, iterate, re-insert some
+            for (j, k) in keys.iter().enumerate() {
+                if j % 2 == 0 {
+                    ops.push(Op::Del(B::Hex(k.clone())));
+                }
+            }
+            ops.push(Op::Iter(r.below(6) as u8));
+            ops.push(Op::Iter(0));
+            for (j, k) in keys.iter().enumerate() {
+                if j % 2 == 1 {
+                    ops.push(Op::Del(B::Hex(k.clone())));
+                }
+            }
+            ops.push(Op::Len);
+            ops.push(Op::Iter(0));
+            ops.push(Op::Iter(4));
+            for k in keys.iter().take(3) {
+                ops.push(Op::Put(B::Hex(k.clone()), gen_val(&mut r, 0)));
+            }
+            ops.push(Op::Iter(1));
+            seqs.push(Seq { kt, params: Params { bk: if v == 1 { Bk::Size(nreq) } else { Bk::Size(n) }, ..Params::buckets(1) }, ops });
+        }
+    }
+    // plus random histories ending in traversals, all key types
+    for i in 0..sizes(ctx, 30, 300) {
+        let mut r = rng.fork(7000 + i as u64);
+        let kt = *r.pick(&Kt::ALL);
+        let n = *r.pick(&[1u64, 2, 4, 8, 16, 128, 256, 1024]);
+        let mut p = Profile::basic(kt, n, 80);
+        p.w = [40, 2, 25, 0, 2, 0, 12, 0, 0, 0, 0, 0, 0, 0];
+        p.pool = r.range(2, 40) as usize;
+        seqs.push(gen_history(&mut r, &p));
+    }
+    let b = run_batch(ctx, seqs, |_| RunOpts { cmp_end: false, ..Default::default() }, &["api", "oracle"], "iter");
+    finish(ctx, "iter", &b, vec![])
 }
